@@ -2043,7 +2043,9 @@ def check_element_slots_fresh(ctx, f, rule, prefix, floor):
                             ds = [d for d in b.defs().get(pl["l"], []) if d[2] == "assign"]
                             if len(ds) == 1 and ds[0][3]["rv"]["r"] == "ref" and ds[0][3]["rv"].get("mut") and not ds[0][3]["rv"]["pl"]["p"]:
                                 sl = ds[0][3]["rv"]["pl"]["l"]
-                                if (b.local_ty(sl) or "").startswith("std::option::Option<"):
+                                if (b.local_ty(sl) or "").startswith("std::option::Option<") or (b.local_ty(sl) or "") in f.adts:
+                                    # an `Option` slot, or a record of the crate that the reader fills field by field
+                                    # (`RequestResourceLimit`): both describe *one* element
                                     slots.setdefault(sl, set()).add(bi)
             if not slots:
                 continue
@@ -2093,6 +2095,9 @@ def check_element_slots_fresh(ctx, f, rule, prefix, floor):
                 for d in b.defs().get(sl, []):
                     if d[0] in scc and d[2] == "assign" and d[3]["rv"]["r"] == "agg" and d[3]["rv"].get("variant") == "None":
                         clears.add(d[0])
+                    elif d[0] in scc and not (b.local_ty(sl) or "").startswith("std::option::Option<") and d[2] in ("assign", "call") \
+                            and not b.is_cleanup(d[0]):
+                        clears.add(d[0])        # a record slot is fresh when it is assigned as a whole (`= T::default()`)
                 for c in b.calls():
                     if c.bb in scc and not b.is_cleanup(c.bb) and c.name in ("take", "replace") and c.args and \
                             c.krate in ("core", "std", "alloc"):
@@ -2104,8 +2109,8 @@ def check_element_slots_fresh(ctx, f, rule, prefix, floor):
                 # every round that creates the reader closure also passes a clearing of the slot
                 ok = bool(clears) and _every_round_passes(b, scc, clears)
                 ctx.ob(rule, "%s:slot-fresh-each-round[%s]" % (short(root_fn(f, name)), short((b.local_ty(sl) or "")[20:-1])[:40] + "#%d" % sorted(slots).index(sl)),
-                       ok, "in %s every `Option` slot that the per-element reader closure fills is emptied on every way round "
-                       "the element loop" % short(root_fn(f, name)), where=b.where(min(creators)),
+                       ok, "in %s every `Option` slot (or record of the crate) that the per-element reader closure fills is emptied "
+                       "(assigned afresh) on every way round the element loop" % short(root_fn(f, name)), where=b.where(min(creators)),
                        detail=None if ok else {"slot": b.local_name(sl), "emptied_in_blocks": sorted(clears)})
     ctx.floor(rule, "per-element slots filled by reader closures in loops under %s" % prefix, n, floor)
 
@@ -2528,3 +2533,121 @@ def check_returns_kept(ctx, f, rule, fn, what, leaf_rx, key=None, through=None):
             if x is None or not kept_as_is(x, lambda l: rx.match(alpha(render(l), b)) is not None):
                 bad.append(alpha(render(v), b)[:160])
     ctx.ob(rule, key or (short(fn) + ":kept-as-is"), bool(vals) and not bad, what, where=b.loc, detail=bad or None)
+
+
+# ---------------------------------------------------------------------------
+# session 6 (rounds 6/7 of seeded changes)
+
+def check_bytes_eq_delegates(ctx, f, rule, adt, what_for):
+    """A hand-written `PartialEq<..>::eq` of a byte-identifier newtype answers with the equality of the two byte views
+    and nothing else: every returned value is one call of the slice / array equality of core on (the value's own bytes,
+    the other side's bytes) — no loop, no fold, no other operand.  (`derive(PartialEq)` impls are trusted as derived.)"""
+    n = 0
+    for name, b in sorted(f.bodies.items()):
+        r = f.fns.get(name) or {}
+        if r.get("impl_adt") != adt or not (r.get("impl_trait_full") or r.get("impl_trait") or "").startswith("std::cmp::PartialEq") \
+                or not name.endswith("::eq") or is_derived_body(b):
+            continue
+        n += 1
+        ctx.saw_fn(name)
+        vals = [strip_deep(t) for _, _, t in success_values(b)]
+        bad = []
+        for v in vals:
+            txt = alpha(render(v), b)
+            ok = v[0] == "call" and re.match(r"^core::(slice|array)::.*PartialEq.*::eq$", v[1] or "") is not None and len(v[2]) == 2
+            if ok:
+                a0, a1 = alpha(render(v[2][0]), b), alpha(render(v[2][1]), b)
+                ok = {root for root in (re.sub(r"^(?:[\w:]+\()*(self|%2).*$", r"\1", x) for x in (a0, a1))} == {"self", "%2"}
+            if not ok:
+                bad.append(txt[:160])
+        loops = [c for c in b.cycles_sccs()] if hasattr(b, "cycles_sccs") else []
+        ctx.ob(rule, "%s:eq-is-byte-equality" % short(name), bool(vals) and not bad and not loops,
+               "%s answers with core's slice equality of the two byte views and nothing else (%s)" % (short(name), what_for),
+               where=b.loc, detail={"returns": bad or None, "loops": len(loops)})
+    ctx.floor(rule, "hand-written PartialEq::eq of %s" % short(adt), n, 1)
+
+
+def check_serial_sign_guard(ctx, f, rule="R-GRD"):
+    """The multi-precision helpers of x509::Serial that consume a serial, rewrite its octets and hand it back as
+    `Option<Self>` (the steps of the decimal parser) hand it back only while it still is a positive 20-octet integer:
+    `Some` requires the top bit of the first octet to be clear.  Found by what they do (by-value `self`, a store into
+    `self.0[..]`, result Option<Serial>), not by name."""
+    from engine.rules import guard_edges
+    X = "repository::x509::Serial"
+    n = 0
+
+    def sign_clear(rel, a, b_):
+        if rel != "eq" or b_ is None:
+            return None
+        sa, sb = render(a), render(b_)
+        for x, y in ((sa, sb), (sb, sa)):
+            if y == "0" and re.match(r"^BitAnd\((self\.0\[0\], 128|128, self\.0\[0\])\)$", x):
+                return True
+        return None
+    for name, b in sorted(f.bodies.items()):
+        r = f.fns.get(name) or {}
+        if r.get("impl_adt") != X or r.get("impl_trait") or b.arg_count < 1:
+            continue
+        if b.locals[0]["ty"] not in ("std::option::Option<repository::x509::Serial>",) or b.locals[1]["ty"] != X:
+            continue
+        writes = False
+        for blk in b.blocks:
+            for st in blk["stmts"]:
+                if st["s"] == "assign" and st["pl"]["l"] == 1 and any(p[0] in ("i", "ci") for p in st["pl"]["p"]):
+                    writes = True
+        if not writes:
+            continue
+        n += 1
+        ctx.saw_fn(name)
+        mp = MustPass(f, lambda c: False, guard_fn=lambda bd, s_, bb: guard_edges(bd, s_, bb, sign_clear), name="self.0[0] & 0x80 == 0")
+        ok = mp.holds(name)
+        ctx.ob(rule, "%s:result-stays-positive" % short(name), ok,
+               "%s returns Some only while the top bit of the first octet is clear (the serial is still a positive integer "
+               "of at most 20 octets)" % short(name), where=b.loc, detail=None if ok else why(f, mp, name))
+    ctx.floor(rule, "octet-rewriting steps of Serial returning Option<Self>", n, 2)
+
+
+def check_builder_slot_accumulates(ctx, f, rule, fns, field="res"):
+    """`XResourcesBuilder::blocks(|b| …)` may be called several times before `finalize`; what the earlier calls added
+    stays.  So the stored sub-builder `self.<field>` is *replaced* (assigned as a whole, `Option::insert`, `replace`,
+    `take`, `mem::take/replace`) only where it is known to be empty — behind the `None` edge of a test on it;
+    `get_or_insert_with` / `get_or_insert` / `as_mut` / `if let Some(ref mut b)` keep what is there."""
+    REPLACING = {"insert", "replace", "take", "swap"}
+    n = 0
+    for fn in fns:
+        b = f.body(fn)
+        if b is None:
+            ctx.missing(rule, short(fn) + ":accumulates", fn)
+            continue
+        ctx.saw_fn(fn)
+        sy = sym_of(b)
+        fld_rx = re.compile(r"^(?:\w+⟵)?self\.%s$" % re.escape(field))
+        sites = []
+        for bi, blk in enumerate(b.blocks):
+            if blk.get("cleanup"):
+                continue
+            for si, st in enumerate(blk["stmts"]):
+                if st["s"] == "assign" and st["pl"]["l"] == 1 and [p[1] for p in st["pl"]["p"] if p[0] == "f"] == [field] \
+                        and not any(p[0] in ("dc",) for p in st["pl"]["p"]):
+                    sites.append((bi, "assignment", b.where(bi, si)))
+        for c in b.calls():
+            if b.is_cleanup(c.bb):
+                continue
+            if c.name in REPLACING and c.args and c.krate in ("core", "std", "alloc"):
+                a0 = alpha(render(strip_deep(sy.operand(c.args[0]))), b)
+                if any(fld_rx.match(alpha(render(strip_deep(sy.operand(a))), b) or "") for a in c.args[:2]) or fld_rx.match(a0 or ""):
+                    sites.append((c.bb, c.name, c.where()))
+            if c.dest_is_field(1, field) if hasattr(c, "dest_is_field") else False:
+                sites.append((c.bb, "call result stored", c.where()))
+        bad = []
+        for bb, kind, where in sites:
+            gs = dominating_guards(f, b, bb)
+            empty = any(re.search(r"discr\((?:\w+⟵)?self\.%s\) in \{0\}" % re.escape(field), g) or
+                        re.search(r"Option::is_none\((?:\w+⟵)?self\.%s\)$" % re.escape(field), g) for g in gs)
+            if not empty:
+                bad.append({"how": kind, "where": where, "established": gs[:4]})
+        n += 1
+        ctx.ob(rule, "%s:accumulates" % short(fn), not bad,
+               "%s replaces the stored sub-builder only where it is known to be empty (earlier calls' blocks are kept)" % short(fn),
+               where=b.loc, detail={"replacing_sites": len(sites), "unguarded": bad or None})
+    ctx.floor(rule, "resource builders whose blocks() accumulates", n, len(fns))
